@@ -18,11 +18,9 @@
 EXTENDS Props, Json, IOUtils
 
 VARIABLES h, l,
-          xroles    \* the role holders as the HISTORY establishes them (specification's lifecycle applied to the
-                    \* transactions so far); st.owner etc. are what the store says
-tvars == <<st, tx, hist, last, h, l, xroles>>
-RolesRec(s) == [owner |-> s.owner, pending |-> s.pending, attMgr |-> s.attMgr, pauser |-> s.pauser, tokCtl |-> s.tokCtl]
-WithRoles(s, r) == [s EXCEPT !.owner = r.owner, !.pending = r.pending, !.attMgr = r.attMgr, !.pauser = r.pauser, !.tokCtl = r.tokCtl]
+          xst       \* the state as the HISTORY establishes it: the specification's own transition applied to the
+                    \* transactions so far (st is what the store holds).  On conforming code xst = st throughout.
+tvars == <<st, tx, hist, last, h, l, xst>>
 
 TraceFile == IF "TRACE_FILE" \in DOMAIN IOEnv THEN IOEnv.TRACE_FILE ELSE "trace.ndjson"
 Hs == ndJsonDeserialize(TraceFile)
@@ -44,14 +42,15 @@ TInit == /\ h \in 1..Len(Hs)
          /\ tx = Idle
          /\ hist = HistInit(st)
          /\ last = NoLast
-         /\ xroles = RolesRec(IF "pre" \in DOMAIN Hs[h] THEN Hs[h].pre ELSE Hs[h].init)
+         /\ xst = NormState(IF "pre" \in DOMAIN Hs[h] THEN Hs[h].pre ELSE Hs[h].init)
 
 TNext == /\ l < Len(Hs[h].events)
          /\ l' = l + 1 /\ h' = h /\ tx' = tx
          /\ LET e == Hs[h].events[l + 1]
                 o == NormObs(e.obs) IN
             /\ st' = o.post
-            /\ xroles' = RolesRec(Run(WithRoles(st, xroles), e.msg, e.faults).post)
+            \* (where the properties are silent the history continues from what the code did)
+            /\ xst' = IF AnyDontCare(e.msg) THEN o.post ELSE Run(xst, e.msg, e.faults).post
             /\ hist' = HistExtend(hist, ObsOut(e, o))
             /\ last' = [msg |-> e.msg, faults |-> e.faults, obs |-> o]
 
@@ -77,9 +76,7 @@ Verdict ==
   PrintT(ToJson([h |-> Hs[h].id, l |-> l',
                  fails   |-> Fails(st, e.msg, e.faults, e.obs) \cup HistFails(st', hist')
                              \cup (IF l' = 1 THEN InitFails(Hs[h]) ELSE {})
-                             \cup \* C10 along the history: only the holder that the history established may act
-                                  (IF e.msg.type \in PrivTypes /\ e.msg.from # Holder(WithRoles(st, xroles), e.msg.type)
-                                      /\ ResOf(e.obs) = "ok" THEN {"C10"} ELSE {}),
+                             \cup AlongHistory(xst, e.msg, e.faults, e.obs),
                  applies |-> Applied(st, e.msg, e.faults, e.obs),
                  div     |-> Diverges(st, e.msg, e.faults, e.obs)]))
 =============================================================================
